@@ -46,7 +46,7 @@ def _worker(args):
         sc = scs[name]
         res = harness.run_symbolic(sc, tier)
         res["canary"] = sc.canary
-        res["relaxed"] = bool(getattr(sc, "relax_int", False)) or getattr(sc, "round_mode", "exact") == "uf"  # over-approximations: refutations / path witnesses are candidates
+        res["relaxed"] = bool(getattr(sc, "relax_int", False)) or getattr(sc, "round_mode", "exact") == "uf" or bool(getattr(sc, "float_model", False))  # over-approximations: refutations / path witnesses are candidates
         res["expect_outcomes"] = list(sc.expect_outcomes)
         res["entry"] = list(sc.entry)
         res["params"] = {k: str(v) for k, v in sc.params.items()}
